@@ -376,7 +376,7 @@ def variety_shapes(tier, pdims=(1, 2, 3), dims=(4, 5), types=True):
                 kvs = [kv] + [A.affine_kv(k, 1.0, 2.0) for k in base[pd][0][0][1:]]
             for rat in (False, True):
                 out.append(A.shape_desc(kvs, base[pd][0][1], rat, 3, 'coded', 'coded', normalize_kv=norm, variety='knots'))
-    return out + mixed_shapes(tier, pdims) + pairwise_shapes(tier, pdims)
+    return out + mixed_shapes(tier, pdims) + pairwise_shapes(tier, pdims) + zero_shapes(tier, pdims)
 
 
 def tiny_span_shapes(tier):
@@ -484,6 +484,27 @@ def pairwise_shapes(tier, pdims=(1, 2, 3)):
         if 3 in pdims and r['size'] != 'large' and p <= 3 and r['dim'] == 3 and i % 2 == 0:
             s2 = A.clamped_kv(1, []) if norm else A.affine_kv(A.clamped_kv(1, []), 1.0, 2.0)
             out.append(A.shape_desc([skv, kv, s2], [small[0], p, 1], rat, 3, r['net'], r['weights'] or 'ones', **extra))
+    return out
+
+
+def zero_shapes(tier, pdims=(1, 2, 3)):
+    """0.0 in every role it can play on a knot range kept as given: an interior knot (range [-1,1], knot at the middle), the
+    end of the domain (range [-2,0]) and its start (range [0,2]); plain coordinates otherwise.  ("if u:" instead of
+    "if u is not None", "x or default" ...)"""
+    out = []
+    for lo, s_ in ((-1.0, 2.0), (-2.0, 2.0), (0.0, 2.0)):
+        def z(kv):
+            return A.affine_kv(kv, lo, s_)
+        for rat in (False, True):
+            if 1 in pdims:
+                out.append(A.shape_desc([z(A.clamped_kv(2, [(0.5, 1)]))], [2], rat, 3, 'coded', 'coded', normalize_kv=False, variety='zero'))
+                out.append(A.shape_desc([z(A.clamped_kv(3, [(0.25, 1), (0.5, 2)]))], [3], rat, 3, 'coded', 'coded', normalize_kv=False, variety='zero'))
+            if 2 in pdims:
+                out.append(A.shape_desc([z(A.clamped_kv(2, [(0.5, 1)])), z(A.clamped_kv(1, [(0.5, 1)]))], [2, 1], rat, 3, 'coded', 'coded',
+                                        normalize_kv=False, variety='zero'))
+            if 3 in pdims and (rat or tier != 'quick'):
+                out.append(A.shape_desc([z(A.clamped_kv(1, [])), z(A.clamped_kv(1, [(0.5, 1)])), z(A.clamped_kv(2, [(0.5, 1)]))], [1, 1, 2], rat, 3,
+                                        'coded', 'coded', normalize_kv=False, variety='zero'))
     return out
 
 
